@@ -1,8 +1,145 @@
 import DarkluaModel.Util.Sexp
-/-! Line-protocol handlers for property C03 (stub: nothing modelled yet). -/
+import DarkluaModel.C03.Model
+/-!
+Line-protocol handlers for property C03 (and the shared trace decoding used by C04).
+
+A writer trace is a sequence of items, one per argument:
+  `B0` / `B1`          `write_token_options(token, space_check)` begins
+  `Tc:<hex>` `Tw:<hex>` `write_trivia` of a comment / whitespace
+  `K<line|->:<hex>`    the token's content and recorded line (`-` = none)
+  `E`                  `write_token_options` ends
+  `S0:<hex>` `S1:<hex>` `write_symbol_without_space_check` / `write_symbol`
+  `P:<hex>`            direct `push_str`
+  `R`                  direct `output.push(' ')`
+Inside `B … E`: trivia before `K` are leading, after `K` trailing.
+
+Operations:
+  `c03.replay <item>*`        → `ok <out-hex> <line> <commenting> <pads> <uncomments> <spaces>`
+  `c03.tiling <src-hex> <item>*` → `ok <all-tokens> <cover> <lines> <comments> <h3>` (each 0/1)
+  `c03.brk <a> <b>`           → `0`/`1`  (`shouldBreakWithSpace` on two byte values)
+  `c03.slc <hex>`             → `0`/`1`  (`isSingleLineComment`)
+-/
 namespace DarkluaModel.C03
 
-def handle (op : String) (_args : List String) : String :=
-  "unknown-op " ++ op
+inductive Item where
+  | tok (t : Tok)
+  | op (o : Op)
+
+def Item.ops : Item → List Op
+  | .tok t => t.ops
+  | .op o => [o]
+
+def flatten : List Item → List Op
+  | [] => []
+  | i :: rest => i.ops ++ flatten rest
+
+def Item.tok? : Item → Option Tok
+  | .tok t => some t
+  | .op _ => none
+
+private def splitColon (s : String) : Option (String × String) :=
+  match s.splitOn ":" with
+  | [a, b] => some (a, b)
+  | _ => none
+
+private def parseLine (s : String) : Option (Option Nat) :=
+  if s == "-" then some none else s.toNat?.map some
+
+private def bit (c : Char) : Option Bool :=
+  if c == '0' then some false else if c == '1' then some true else none
+
+/-- Decoder state: `cur = some (spaceCheck, leading, content?, trailing)` while inside `B … E`. -/
+structure Dec where
+  items : List Item := []      -- reversed
+  cur : Option (Bool × List Trivia × Option (List UInt8 × Option Nat) × List Trivia) := none
+
+def decodeStep (d : Dec) (arg : String) : Option Dec :=
+  match arg.toList with
+  | ['B', b] =>
+    match d.cur, bit b with
+    | none, some sc => some { d with cur := some (sc, [], none, []) }
+    | _, _ => none
+  | ['E'] =>
+    match d.cur with
+    | some (sc, lead, some (content, line), trail) =>
+      some { items := .tok { leading := lead.reverse, content := content, line := line,
+                             spaceCheck := sc, trailing := trail.reverse } :: d.items, cur := none }
+    | _ => none
+  | ['R'] =>
+    match d.cur with
+    | none => some { d with items := .op .rawSpace :: d.items }
+    | some _ => none
+  | 'T' :: k :: ':' :: _ =>
+    match splitColon arg with
+    | some (_, h) =>
+      match hexToBytes? h, (if k == 'c' then some true else if k == 'w' then some false else none) with
+      | some bs, some c =>
+        match d.cur with
+        | none => some { d with items := .op (.trivia c bs) :: d.items }
+        | some (sc, lead, none, trail) => some { d with cur := some (sc, ⟨c, bs⟩ :: lead, none, trail) }
+        | some (sc, lead, some k, trail) => some { d with cur := some (sc, lead, some k, ⟨c, bs⟩ :: trail) }
+      | _, _ => none
+    | none => none
+  | 'K' :: _ =>
+    match splitColon arg with
+    | some (l, h) =>
+      match parseLine (l.drop 1).toString, hexToBytes? h, d.cur with
+      | some line, some bs, some (sc, lead, none, trail) =>
+        some { d with cur := some (sc, lead, some (bs, line), trail) }
+      | _, _, _ => none
+    | none => none
+  | 'S' :: b :: ':' :: _ =>
+    match splitColon arg, bit b, d.cur with
+    | some (_, h), some sc, none =>
+      (hexToBytes? h).map fun bs => { d with items := .op (.symbol bs sc) :: d.items }
+    | _, _, _ => none
+  | 'P' :: ':' :: _ =>
+    match splitColon arg, d.cur with
+    | some (_, h), none =>
+      (hexToBytes? h).map fun bs => { d with items := .op (.rawPush bs) :: d.items }
+    | _, _ => none
+  | _ => none
+
+def decode (args : List String) : Option (List Item) :=
+  match args.foldlM decodeStep ({} : Dec) with
+  | some d => if d.cur.isNone then some d.items.reverse else none
+  | none => none
+
+def b01 (b : Bool) : String := if b then "1" else "0"
+
+def allToks : List Item → Option (List Tok)
+  | [] => some []
+  | .tok t :: rest => (allToks rest).map (t :: ·)
+  | .op _ :: _ => none
+
+def handle (op : String) (args : List String) : String :=
+  match op, args with
+  | "replay", items =>
+    match decode items with
+    | none => "bad-args"
+    | some is =>
+      let r := run init (flatten is)
+      s!"ok {bytesToHex r.out} {r.line} {b01 r.commenting} {r.pads} {r.uncomments} {r.spaces}"
+  | "tiling", src :: items =>
+    match hexToBytes? src, decode items with
+    | some s, some is =>
+      match allToks is with
+      | none =>
+        let l := flatten is
+        s!"ok 0 {b01 (texts l == s)} {b01 (linesOk 0 l)} {b01 (commentsOk false l)} {b01 (h3 none l)}"
+      | some ts =>
+        let l := ops ts
+        s!"ok 1 {b01 (texts l == s)} {b01 (linesOk 0 l)} {b01 (commentsOk false l)} {b01 (h3 none l)}"
+    | _, _ => "bad-args"
+  | "brk", [a, b] =>
+    match a.toNat?, b.toNat? with
+    | some x, some y =>
+      if x < 256 ∧ y < 256 then b01 (shouldBreakWithSpace (UInt8.ofNat x) (UInt8.ofNat y)) else "bad-args"
+    | _, _ => "bad-args"
+  | "slc", [h] =>
+    match hexToBytes? h with
+    | some bs => b01 (isSingleLineComment bs)
+    | none => "bad-args"
+  | _, _ => "unknown-op " ++ op
 
 end DarkluaModel.C03
